@@ -27,6 +27,8 @@ def parse_options(argv):
     ap.add_argument('--evidence-dir', default=None)
     ap.add_argument('--dump-digests', default=None, help='write per-run log digests to this file (determinism self-test)')
     ap.add_argument('--no-minimise', action='store_true')
+    ap.add_argument('--fail-fast', action='store_true', help='stop exploring at the first unlisted violation (sensitivity runs)')
+    ap.add_argument('--replay-dir', default=os.environ.get('VERIF_REPLAY_DIR'), help='where replay files are written (default /verif/replays)')
     opts = ap.parse_args(argv)
     if opts.seed is None:
         try:
@@ -84,9 +86,10 @@ def match_known(known, vio):
 class Reporter(object):
     """Collects violations, prints KNOWN-FINDING / VIOLATION lines, decides the exit status."""
 
-    def __init__(self, prop, seed):
+    def __init__(self, prop, seed, replay_dir=None):
         self.prop = prop
         self.seed = seed
+        self.replay_dir = replay_dir
         self.known = load_known_findings()
         self.known_hit = {}
         self.violations = []
@@ -104,7 +107,7 @@ class Reporter(object):
 
     def violation(self, vio, replay_obj):
         self.n_replays += 1
-        d = os.path.join(VERIF_DIR, 'replays')
+        d = self.replay_dir or os.path.join(VERIF_DIR, 'replays')
         os.makedirs(d, exist_ok=True)
         path = os.path.join(d, '%s-%d-%d.json' % (self.prop, self.seed, self.n_replays))
         with open(path, 'w') as f:
